@@ -1361,6 +1361,14 @@ def translate(spec, repo, scratch):
     for rule, minimum in spec.get("must_fire", {}).items():
         if tr.fired.get(rule, 0) < minimum:
             raise ExtractError("rule '%s' fired %d times, expected >= %d" % (rule, tr.fired.get(rule, 0), minimum))
+    # only_uses: every occurrence of a token in the extracted text must be one of the listed forms (e.g. "the code buffer
+    # is only ever written, never read"), otherwise the abstraction a harness relies on is void -> ExtractError (exit 2)
+    for ou in spec.get("only_uses", []):
+        n_tok = len(re.findall(ou["token"], text))
+        n_ok = sum(len(re.findall(a, text)) for a in ou["allowed"])
+        if n_tok != n_ok or n_tok < ou.get("min", 1):
+            raise ExtractError("only_uses '%s': %d occurrences, %d in an allowed form" % (ou["name"], n_tok, n_ok))
+        fired.append("only_uses %s x%d" % (ou["name"], n_tok))
     return text, fired
 
 
